@@ -53,6 +53,29 @@ def run(out, tier, seed, model_ok):
         else:
             g, parts, _o = C.api_case(seed * 1000003 + i, dict(p_image=0.0, style_map=0.0, p_embedded_map=0.0, hostile=0.6, p_dangling_style=0.4))
             imgs = []
+        if mode == "dir" and imgs and rng.random() < 0.5:
+            # make the first embedded picture a declared PNG so that the scenario below applies
+            for p_ in parts:
+                if p_["name"] == "[Content_Types].xml":
+                    p_["xml"][2].append(["content-types:Override", [["PartName", "/" + imgs[0]["name"]], ["ContentType", "image/png"]], []])
+                    imgs[0]["ct"] = "image/png"
+        if mode == "dir" and imgs and imgs[0]["ct"] == "image/png" and rng.random() < 0.7:
+            out.extra["missing_link_cases"] = out.extra.get("missing_link_cases", 0) + 1
+            # a linked picture whose target does not exist, placed BEFORE the embedded ones: it yields a warning and no
+            # img; the embedded pictures are still numbered 1, 2, ... (its half-written 1.png is overwritten by the first)
+            import copy
+            from gen_docx import el as _el, REL as _REL
+            parts = copy.deepcopy(parts)
+            for p_ in parts:
+                if p_["name"] == "word/document.xml":
+                    body = p_["xml"][2][0]
+                    body[2].insert(0, _el("w:p", [], [_el("w:r", [], [_el("w:drawing", [], [_el("wp:inline", [], [_el("a:graphic", [], [_el("a:graphicData", [], [
+                        _el("pic:pic", [], [_el("pic:blipFill", [], [_el("a:blip", [("r:link", "rIdMissing")])])])])])])])])]))
+                if p_["name"] == "[Content_Types].xml":
+                    # the same subtype as the first embedded picture, whatever the Default for .png says
+                    p_["xml"][2].append(["content-types:Override", [["PartName", "/no-such-picture.png"], ["ContentType", "image/png"]], []])
+                if p_["name"] == "word/_rels/document.xml.rels":
+                    p_["xml"][2].append(_el("relationships:Relationship", [("Id", "rIdMissing"), ("Type", _REL + "image"), ("Target", "no-such-picture.png"), ("TargetMode", "External")]))
         data = D.build_docx(parts)
         name = rng.choice(["input.docx", "document", "a.b.docx", "my doc.docx", ".hidden", "ünï.docx"])
         inpath = os.path.join(d, name)
